@@ -722,5 +722,11 @@ pub fn c05(args: &Args) -> i32 {
     run.put("plans_completed", json!(done));
     run.put("plans_with_full_database_product", json!(full.load(std::sync::atomic::Ordering::Relaxed)));
     run.put("plans_with_strided_database_product", json!(strided.load(std::sync::atomic::Ordering::Relaxed)));
+    // "exhaustive" would claim more than this tier does: database products above the cap are walked at a fixed stride,
+    // and the quick tier takes a fixed sub-list of the four-node trees
+    if quick || strided.load(std::sync::atomic::Ordering::Relaxed) > 0 {
+        run.put("exhaustive", json!(false));
+        run.put("exhaustive_note", json!("complete over the plans selected for this tier; database products above the per-plan cap are walked at a fixed stride (counted in plans_with_strided_database_product)"));
+    }
     run.finish()
 }
